@@ -36,90 +36,123 @@ def _run_cli(cmd, timeout):
     return 'error', (out + p.stderr)[:500], time.time() - t0
 
 
+Z3NEW = '/usr/local/bin/z3-new'
+if not os.path.exists(Z3NEW):
+    import shutil as _sh
+    Z3NEW = _sh.which('z3-new') or Z3NEW
+
+
+def _model_query(text, names):
+    """text ending in (check-sat) -> text asking for the input symbols"""
+    if not names:
+        return text
+    return text + '\n(get-value (%s))\n' % ' '.join(
+        '|%s|' % n if not re.fullmatch(r'[A-Za-z_][A-Za-z0-9_.!]*', n) else n
+        for n in sorted(names))
+
+
+def _parse_values(out):
+    """(get-value ...) output of z3 -> {symbol: sexpr text}"""
+    i = out.find('(')
+    if i < 0:
+        return None
+    body = out[i:]
+    vals = {}
+    depth = 0
+    start = None
+    items = []
+    for k, ch in enumerate(body):
+        if ch == '(':
+            depth += 1
+            if depth == 2:
+                start = k
+        elif ch == ')':
+            if depth == 2 and start is not None:
+                items.append(body[start + 1:k])
+                start = None
+            depth -= 1
+            if depth == 0:
+                break
+    for it in items:
+        it = it.strip()
+        m = re.match(r'(\|[^|]*\||[^\s()]+)\s+(.*)$', it, re.S)
+        if m:
+            vals[m.group(1).strip('|')] = m.group(2).strip()
+    return vals or None
+
+
 def solve_text(args):
-    """worker: (key, smt2 text, input names, budget seconds, workdir)"""
-    key, text, names, budget, workdir, order = args
+    """worker: decides one obligation with command-line solvers only, each in
+    its own process under a wall-clock limit (a crashing solver is an 'error'
+    of that back end, never a hang of the checker)"""
+    key, text, names, budget, workdir, order, light = args
     res = {'key': key, 'status': 'unknown', 'backend': None, 'time': 0.0,
            'model': None, 'tried': []}
     t_start = time.time()
+    base = os.path.join(workdir, 'ob_%s' % re.sub(r'\W', '_', str(key))[:80])
 
-    def api():
-        t0 = time.time()
-        try:
-            s = z3.Solver()
-            s.set('timeout', int(min(budget, 10) * 1000))
-            s.from_string(text)
-            r = str(s.check())
-        except z3.Z3Exception as ex:
-            r = 'error'
-        dt = time.time() - t0
-        res['tried'].append(('z3-5.1-api', r, round(dt, 3)))
-        if r == 'sat':
-            m = s.model()
-            vals = {}
-            for d in m.decls():
-                if d.name() in names:
-                    try:
-                        vals[d.name()] = m[d].sexpr()
-                    except Exception:
-                        pass
-            res['model'] = vals
-        return r, dt
-
-    def cli(which):
-        path = os.path.join(workdir, 'ob_%s.smt2' % re.sub(r'\W', '_',
-                                                          str(key))[:80])
-        body = text
+    def run(which, body, limit):
+        path = '%s_%s.smt2' % (base, which)
         if which == 'cvc5':
-            body = '(set-logic ALL)\n' + text
-            if names:
-                body = body.replace('(check-sat)', '(check-sat)')
-            path = path.replace('.smt2', '_c.smt2')
             with open(path, 'w') as f:
-                f.write(body)
+                f.write('(set-logic ALL)\n' + body)
             cmd = [CVC5, '--dt-nested-rec', '--strings-exp', '-q',
-                   '--tlimit=%d' % int(budget * 1000), path]
+                   '--tlimit=%d' % int(limit * 1000), path]
         else:
             with open(path, 'w') as f:
                 f.write(body)
-            cmd = [Z3OLD, '-T:%d' % int(budget), path]
-        r, out, dt = _run_cli(cmd, budget + 2)
-        res['tried'].append((which if which == 'cvc5' else 'z3-4.8.12', r,
-                             round(dt, 3)))
+            exe = Z3NEW if which == 'z3new' else Z3OLD
+            cmd = [exe, '-T:%d' % max(1, int(limit)), path]
+        r, out, dt = _run_cli(cmd, limit + 3)
         try:
             os.unlink(path)
         except OSError:
             pass
-        return r, dt
+        return r, out, dt
 
+    label = {'z3new': 'z3-5.1.0', 'api': 'z3-5.1.0', 'z3old': 'z3-4.8.12',
+             'cvc5': 'cvc5-1.0.3'}
+    if light is not None:
+        # stage 1: without the unfoldings of recursive spec functions (fewer
+        # hypotheses: an unsat here is a proof); anything else is inconclusive
+        r, out, dt = run('z3new', light, 3)
+        res['tried'].append(('z3-5.1.0/light', r, round(dt, 3)))
+        if r == 'unsat':
+            res.update(status='unsat', backend='z3-5.1.0',
+                       time=time.time() - t_start)
+            return res
     for backend in order:
-        if backend == 'api':
-            r, dt = api()
-            name = 'z3-5.1-api'
-        elif backend == 'cvc5':
-            r, dt = cli('cvc5')
-            name = 'cvc5-1.0.3'
-        else:
-            r, dt = cli('z3old')
-            name = 'z3-4.8.12'
+        which = 'z3new' if backend == 'api' else backend
+        r, out, dt = run(which, text, budget)
+        res['tried'].append((label[which], r, round(dt, 3)))
         if r in ('sat', 'unsat'):
             res['status'] = r
-            res['backend'] = name
+            res['backend'] = label[which]
             break
+    if res['status'] == 'sat' and names:
+        for which in ('z3new', 'z3old'):
+            r, out, dt = run(which, _model_query(text, names), budget)
+            if r == 'sat':
+                vals = _parse_values(out.split('\n', 1)[1] if '\n' in out
+                                     else '')
+                if vals:
+                    res['model'] = vals
+                    break
     res['time'] = time.time() - t_start
-    if res['status'] == 'sat' and res['model'] is None:
-        # get a model from the API solver for replay if it can find one
-        try:
-            s = z3.Solver()
-            s.set('timeout', int(budget * 1000))
-            s.from_string(text)
-            if str(s.check()) == 'sat':
-                m = s.model()
-                res['model'] = {d.name(): m[d].sexpr() for d in m.decls()
-                                if d.name() in names}
-        except Exception:
-            pass
     return res
+
+
+def has_sets(text):
+    return '(Array Ty Bool)' in text
+
+
+def ob_unfold(eng, ob):
+    """unfolding depth: contract clause unfold(k) of the function under
+    verification, else the engine option, else 2"""
+    c = eng.contracts.get(ob.fn) if ob.fn else None
+    if c is not None and getattr(c, 'unfold', None) is not None:
+        return c.unfold
+    return eng.opts.get('unfold', 1)
 
 
 def has_seq_update(text):
@@ -144,19 +177,28 @@ def discharge(verifier, obligations, budget=10, jobs=None, workdir=None,
             names = list(eng.specs.lemmas)
             if ob.fn[6:] in names:
                 exclude = set(names[names.index(ob.fn[6:]):])
-        axioms = verifier.axioms_for(fs, depth=eng.opts.get('unfold', 2),
+        axioms = verifier.axioms_for(fs, depth=ob_unfold(eng, ob),
                                      exclude=exclude)
         ob.axioms = axioms
         text = to_smt2(fs + axioms)
+        light = None
+        if len(text) > 40000:
+            light = to_smt2(fs + verifier.axioms_for(fs, depth=0,
+                                                     exclude=exclude))
         names = set()
         for (kind, t) in ob.inputs.values():
             names.add(str(t))
-        order = ['cvc5', 'z3old', 'api'] if has_seq_update(text) \
-            else ['api', 'cvc5', 'z3old']
-        tasks.append((k, text, names, budget, workdir, order))
+        if has_sets(text):
+            order = ['api', 'z3old']
+        elif has_seq_update(text):
+            order = ['cvc5', 'z3old', 'api']
+        else:
+            order = ['api', 'cvc5', 'z3old']
+        tasks.append((k, text, names, budget, workdir, order, light))
     if tasks:
-        with mp.Pool(jobs) as pool:
-            for res in pool.imap_unordered(solve_text, tasks, chunksize=1):
+        from concurrent.futures import ThreadPoolExecutor
+        with ThreadPoolExecutor(jobs) as pool:
+            for res in pool.map(solve_text, tasks):
                 ob = obligations[res['key']]
                 ob.status = res['status']
                 ob.backend = res['backend']
